@@ -102,7 +102,14 @@ impl World {
                     Some((e.0, seen))
                 }
             }
-            None => Some((dst, seen)),
+            // the private address of a node behind such a router is not reachable from outside
+            None => {
+                if self.alias.iter().any(|e| e.0 == dst) {
+                    None
+                } else {
+                    Some((dst, seen))
+                }
+            }
         }
     }
 
